@@ -243,6 +243,13 @@ class Policy:
                 m.status_code = e["value"]
             elif k == "via":
                 f.server_conn.via = (e["value"][0], tuple(e["value"][1])) if e["value"] else None
+            elif k == "replace_server_conn":
+                # the documented way to re-route when the current server connection may already be open
+                # (examples/contrib/change_upstream_proxy.py): put a fresh Server object on the flow
+                from mitmproxy.connection import Server
+                new = Server(address=f.server_conn.address)
+                new.via = (e["value"][0], tuple(e["value"][1])) if e["value"] else None
+                f.server_conn = new
 
 
 # ---------------------------------------------------------------------------
